@@ -72,6 +72,16 @@ func init() {
 			return modelLock(fc, "sync.RWMutex", m, args)
 		}
 	}
+	builtinModels["(*github.com/tokenized/pkg/wire.MsgTx).TxHash"] = func(fc *FnCtx, c *ssa.CallCommon, args []Val, rt types.Type) (*Val, error) {
+		fc.vc.trust("wire.MsgTx.TxHash is an uninterpreted function of the transaction object (its content is not modelled)")
+		fc.vc.declareFun("uf.txHash", []string{"Int"}, "Int")
+		r := fc.newRef()
+		et := rt.Underlying().(*types.Pointer).Elem()
+		bc := boxComp(et)
+		fc.setComp(bc, arraySort("Int"), sto(fc.getComp(bc, arraySort("Int")), r, "(uf.txHash "+args[0].T+")"))
+		return &Val{T: r, S: SInt, Typ: rt}, nil
+	}
+	builtinMods["(*github.com/tokenized/pkg/wire.MsgTx).TxHash"] = []string{"B.bitcoin.Hash32"}
 	builtinModels["sort.Sort"] = modelSortSort
 	builtinModels["bytes.Equal"] = func(fc *FnCtx, c *ssa.CallCommon, args []Val, rt types.Type) (*Val, error) {
 		if args[0].ArrView != "" && args[1].ArrView != "" {
@@ -818,12 +828,14 @@ func (fc *FnCtx) execRecv(x *ssa.UnOp, ch Val) error {
 	ct := ch.Typ.Underlying().(*types.Chan)
 	v := fc.symbolic(fc.name(x)+".rv", ct.Elem())
 	recvd := fc.getComp("CN.recvd", arraySort("Int"))
-	fc.setComp("CN.recvd", arraySort("Int"), sto(recvd, ch.T, mkAdd(sel(recvd, ch.T), "1")))
 	if x.CommaOk {
+		// ok == false: the channel is closed and drained; nothing was received
 		ok := fc.vc.fresh(fc.name(x)+".ok", "Bool")
+		fc.setComp("CN.recvd", arraySort("Int"), sto(recvd, ch.T, mkAdd(sel(recvd, ch.T), mkIte(ok, "1", "0"))))
 		fc.env[x] = Val{Typ: x.Type(), Tup: []Val{v, {T: ok, S: SBool, Typ: types.Typ[types.Bool]}}}
 		return nil
 	}
+	fc.setComp("CN.recvd", arraySort("Int"), sto(recvd, ch.T, mkAdd(sel(recvd, ch.T), "1")))
 	fc.env[x] = v
 	return nil
 }
